@@ -149,7 +149,7 @@ def consoleBlocks : List Sess := [
      (GetCmdOutput .save (.lit "") [""]) .skip ;;
    .ite (.flag .okMark) "strings.Contains($IssueCmd, \"[OK]\")" (.ret .none []) .skip ;;
    .ite (.flag .openFailed) "strings.Contains($IssueCmd, \"startup-config file open failed\")"
-     (.ite .ctrPos "$const > 0" (.decCtr ;; .cont) .skip ;;
+     (.ite .ctrPos "$v > 0" (.decCtr ;; .cont) .skip ;;
       .abort ["write mem: startup-config open failed - giving up"]) .skip ;;
    .abort ["write mem: unexpected result: %s", "_"]) ]
 
